@@ -70,3 +70,8 @@ claim("C11", "DESIGN.md 5 C11",
       "Payloader: one VP8Payloader instance per (MTU, picture ids on/off, length-cycle offset) is driven through 32768+130 frames, i.e. EVERY picture id incl. the 127/128 form switch and the 15-bit wrap, every id meeting every frame-length class relative to the MTU; every packet is decoded by VP8Packet and checked (concatenation = frame, S / IsPartitionHead on the first packet only, partition index 0, I=1 with the expected running id in the right 7/15-bit form, <= MTU). Decoder: descriptors from an independent RFC 7741 encoder: ALL 256 first octets x ALL 256 extension octets x field values x 0/1/3 payload bytes, plus complete sweeps of all picture ids, TL0PICIDX and TID/Y/KEYIDX octets, each with EVERY truncation (cut inside the descriptor rejected, cut after it = empty payload), decoded into a receiver pre-loaded with other values.",
       "Field alphabets of the flag product in the evidence assumptions.",
       "bounded exhaustive enumeration (complete for picture ids and flag octets) against an independent RFC 7741 descriptor encoder (explicit choice-tree DFS on the real code)")
+
+claim("C12", "DESIGN.md 5 C12",
+      "Payloader: frames written by an independent uncompressed-header bit writer (profiles 0-3 x bit depth x all 8 colour spaces x range x subsampling; 36 sizes; key / inter / intra-only / show-existing) x 5 length classes relative to the MTU x 8 MTUs x flexible/non-flexible x 7 sources of the initial picture id (InitialPictureIDFn incl. 0x7FFE/0x7FFF for the wrap, and the random seam), three frames per instance; every packet decoded by VP9Packet: concatenation = frame, B/E, constant 15-bit picture id +1 per frame mod 2^15, F, P, scalability structure with the coded size on the first packet of a non-flexible key frame, <= MTU. Header parser compared field by field with what was written, incl. every width/height value 1..65536 (thorough). Decoder: ALL 256 flag octets x picture id forms x layer indices x 1-3 P_DIFFs (fourth rejected) x scalability structures (N_S, Y, G, N_G, R) x 0/1/3 payload bytes from an independent descriptor encoder, with EVERY truncation.",
+      "Alphabets and the reading of P for intra-only/show-existing frames in the evidence assumptions; SID >= 5 and coded width 65536 are not demanded (DESIGN.md 5.0).",
+      "bounded exhaustive enumeration against an independent VP9 descriptor encoder and uncompressed-header bit writer (explicit choice-tree DFS on the real code)")
